@@ -870,6 +870,44 @@ PROPS["C24"]["level_note"] = PROPS["C24"]["level_note"].replace(
     "proved to index existing edges / nodes): nothing of the property's word 'exactly' is assumed any more. ").replace(
     "std BTreeSet::new/insert as a Set", "std BTreeSet::new/insert/contains/iter as a Set")
 
+# ---- C03 / C04 / C05 after the instantiation units (round 3) ----------------------------------------------------------
+PROPS["C03"]["units"] = PROPS["C03"]["units"] + ["instantiate_data_domain", "instantiate_domain_map", "instantiate_domain_map_data", "instantiate_mem_region"]
+PROPS["C04"]["units"] = PROPS["C04"]["units"] + ["instantiate_data_domain"]
+PROPS["C05"]["units"] = PROPS["C05"]["units"] + ["instantiate_mem_region"]
+_INST_NOTE_C03 = (
+    " INSTANTIATIONS (round 3): the generic units are proved relative to named hypotheses on their value domains; these hypotheses are now PROVED for the "
+    "instantiations the real code uses, by units that import both the generic and the concrete unit (a verified witness calls each imported concrete function, so "
+    "'concrete contract ==> hypothesis' is re-checked on every run): DataDomain<T> at T = IntervalDomain (dd_merge_hyp with merge_pre = inv, equal widths <= 64 bit, "
+    "merged stride >= 2 ==> merge_span <= i64::MAX, both widening delays <= i64::MAX; a verified client states C03 for Data = DataDomain<IntervalDomain> under "
+    "exactly these conditions on common targets and absolute parts; for widths <= 32 bit only the delay bounds remain); DomainMap<K, V, S> at V = BitvectorDomain "
+    "(cwe_119 bounds maps; needs equal byte size of the operands), V = Taint, V = Data (pointer-inference register map, MergeTop; the trait default merge_with is "
+    "extracted and verified at Self = Data); MemRegion<T> at T = BitvectorDomain and T = Data. dm_top_is_max is REFUTED for BitvectorDomain and Taint (Intersect "
+    "strategy; no DomainMap in /repo uses it). Trusted for this: 12 wrappers 'the exec function is a function of its arguments' (determinism only), 'a BTreeMap is "
+    "its entries' (2 axioms), derive(PartialEq) of Taint / DataDomain restated; hypotheses on the opaque key types (AbstractIdentifier, K) remain.")
+PROPS["C03"]["level_note"] = PROPS["C03"]["level_note"].replace("instantiation for IntervalDomain/DataDomain/Taint not performed", "instantiation: see INSTANTIATIONS below").replace(
+    "but the instantiation is not performed", "and the instantiation IS performed (see INSTANTIATIONS below)") + _INST_NOTE_C03
+PROPS["C04"]["level_note"] = PROPS["C04"]["level_note"] + (
+    " INSTANTIATION (round 3): DataDomain's five bound wrappers and intersect at T = IntervalDomain: dd_refine_hyp and dd_intersect_hyp are proved for "
+    "IntervalDomain (refine_pre = inv, narrow, bound of equal width <= 64 bit; intersect_pre = inv, equal widths <= 64 bit, lcm(strides) <= u64::MAX above 32 bit) and "
+    "verified clients cover add_*_bound and intersect of Data = DataDomain<IntervalDomain>.")
+PROPS["C05"]["level_note"] = PROPS["C05"]["level_note"] + (
+    " MACHINERY FINDING M6 (2026-09-22, repaired): the hypothesis mr_domain_ok on T was UNSATISFIABLE for every T (new_top(s) was given size s for every u64 s while "
+    "every value was bounded by 2^25 bytes), so every contract requiring it -- all of C05 but new / top / is_top / clear_top_values -- was vacuously true although "
+    "the vacuity probe, the seeds and the mutation tests looked healthy (the contradiction needs a ground term no trigger produces). Found by the instantiation "
+    "unit (a three-line lemma proved !mr_domain_ok::<T>()). Repair: the hypotheses are now RELATIVE to T's value invariant inv_spec and to T's preconditions "
+    "merge_pre_spec / bytesize_pre_spec / top_pre_spec; values handed to a region must satisfy inv_spec, stored cells do (part of the region invariant); merge_inner "
+    "and merge need T's merge precondition on equally sized cells at a common offset; the property-level postconditions are unchanged; all 113 obligations of the "
+    "unit were re-proved. The hypotheses are PROVED for a toy domain inside the unit and for T = BitvectorDomain (inv = wf) and T = DataDomain<IntervalDomain> (inv = "
+    "size <= 2^25; merge precondition = DataDomain::merge's) in unit instantiate_mem_region, which also verifies read-after-write and merge clients at "
+    "MemRegion<Data>. RULE since: every generic unit carries a machine-checked witness of its hypothesis set. MemRegion::merge on equal regions returns the region "
+    "itself; the merge-rule form of that case holds whenever T's merge is idempotent (BitvectorDomain; not derivable for Data).")
+PROPS["C05"]["assumptions"] = PROPS["C05"]["assumptions"] + [
+    "instantiation units: 'a BTreeMap is its finite set of entries' (2 axioms), derive(PartialEq) of DataDomain restated, dd_id_ok / inst_id_eq_ok on AbstractIdentifier, 12 determinism wrappers for IntervalDomain's functions",
+]
+PROPS["C03"]["assumptions"] = PROPS["C03"]["assumptions"] + [
+    "instantiation units: 12 determinism wrappers (the exec function is a function of its arguments), 2 BTreeMap axioms, derive(PartialEq) of Taint / DataDomain restated, R9 `self != other` in the Data merge_with",
+]
+
 
 def twin_for(unit, label):
     for frag, twin in TWINS.get(unit, []):
